@@ -286,7 +286,12 @@ func runC13Sched(c *core.Ctx) {
 				continue
 			}
 			if len(v.Class) > 9 && v.Class[:9] == "MACHINERY" {
-				c.Abort("%s in %s: %s", v.Class, r.job.S.Name, v.What)
+				// the same choices did not reproduce the same execution: something the scheduler does not own changed between
+				// two runs in one process (state at package level that survives a call, e.g. a lazily built table). No verdict
+				// is taken from such executions; the exploration of this scenario is reported as incomplete and the
+				// free-running passes (fresh processes, race detector) go on.
+				exhaustive = false
+				c.Set("not_reproducible_"+r.job.S.Name, v.Class+": "+v.What)
 				continue
 			}
 			c.Violate(fmt.Sprintf("C13/v%d/%s", r.job.S.Version, v.Class), fmt.Sprintf("%s: %s", r.job.S.Name, v.What),
